@@ -326,7 +326,13 @@ def r09_8(ctx: Ctx) -> None:
         ctx.check(bounded, "R09.8", ex, c, "recursive selection tests a '/'-bounded prefix",
                   f"`{norm(c)}` takes a bare string prefix of the member name as 'beneath the target' (`{norm(tv)}` without a separator): targets 'al' or 'b' select "
                   "'alphabet.txt' / 'beta.bin', and a name in T that is not in the archive is not ignored", construct="recursive prefix test")
-    ctx.floor("R09.8", n_sw, 1, "prefix tests against targets in _extract (recursive arm)")
+    if n_sw == 0:
+        # another correct form: some ancestor of the member name is a target (`any(str(p) in targets for p in PurePath(name).parents)`)
+        anc = any(isinstance(n, ast.Attribute) and n.attr == "parents" for n in walk(ex.node)) and \
+            any(isinstance(n, ast.Compare) and isinstance(n.ops[0], (ast.In, ast.NotIn)) and norm(n.comparators[0]) == "targets" and q.enclosing_loops(ex, n) for n in walk(ex.node))
+        ctx.check(anc, "R09.8", ex, ex.node, "the recursive arm relates a member to ALL its ancestors",
+                  "with recursive=True no test relates a member to every directory above it (neither a '/'-bounded prefix test over the targets nor a walk over the member's "
+                  "ancestors): members more than one level beneath a named directory are not delivered", construct="recursive ancestor relation")
     strips = [c for c in q.calls(pub) if attr_tail(c) == "remove_trailing_slash"]
     if strips:
         tests = [n for n in walk(ex.node) if isinstance(n, ast.Compare) and len(n.ops) == 1 and isinstance(n.ops[0], (ast.In, ast.NotIn)) and norm(n.comparators[0]) == "targets"]
